@@ -19,10 +19,11 @@ open Nng.LifeSpec (J JPipe JEp JSock upd put KU)
 abbrev SelE := Nat → Nat → Bool → Bool
 def noSel : SelE := fun _ _ _ => false
 
-/-- the judge's record of a pipe is a function of the model's pipe -/
+/-- the judge's record of a pipe is a function of the model's pipe; between the steps no notification is
+owed (`preWait`, `postWait`) and no registration is in doubt (`unsure`) -/
 def jp (p : Pipe) : JPipe :=
   { ep := p.ep, sock := p.sock, evs := p.evs, preReg := p.preDue, anyReg := p.last != 0,
-    closedInPre := p.cip, lost := p.reaped, remWaived := p.reaped && !p.remReg }
+    closedInPre := p.cip, lost := p.reaped, remWaived := p.reaped && !p.remReg, started := p.started }
 
 def PipesRel (st : State) (j : J) : Prop := j.pipes = st.pipes.map fun p => (p.idx, jp p)
 def CtxsRel (st : State) (j : J) : Prop := j.ctxs = st.ctxs.map fun c => (c.id, c.sock, c.closed)
